@@ -6,7 +6,7 @@
 //!                                    driver appends the mode: `any` when the outcome depends on an
 //!                                    inflate result its stored-block oracle cannot decide)
 //!   `index <hex>`                    `SqPackIndex::from_existing` -> none/some
-//!   `indexq <hex> <pathhex>`         + `exists` / `find_entry` -> none | ok
+//!   `indexq <hex> <pathhex> [cls|any]` + `exists` / `find_entry` -> none | e0 | e1 (cls) | ok (any)
 //!   `repo <namehex>`                 a directory of that name, `Repository::from_existing_expansion` -> none/some
 //!   `gd <tree> <op> <pathhex>`       synthetic installation (`rel/path:hex;rel/dir/:-;…`), GameData
 //!                                    from_existing + exists/extract -> ok
@@ -107,8 +107,13 @@ pub fn run(f: &[&str]) -> Option<String> {
                 guarded(move || cls(physis::sqpack::SqPackIndex::from_existing(&ps)))
             }))
         }
-        ("indexq", 3) => {
+        ("indexq", 4) => {
             let (Some(b), Some(q)) = (unhex(f[1]), unhex(f[2])) else { return Some("bad-case".into()) };
+            let any = match f[3] {
+                "any" => true,
+                "cls" => false,
+                _ => return Some("bad-case".into()),
+            };
             let Ok(q) = String::from_utf8(q) else { return Some("bad-case".into()) };
             let td = TempDir::new("c18idq");
             let p = write_file(td.path(), "000000.win32.index", &b);
@@ -120,7 +125,15 @@ pub fn run(f: &[&str]) -> Option<String> {
                     let e = ix.exists(&q);
                     let fe = ix.find_entry(&q);
                     let _ = ix.calculate_hash(&q);
-                    if e != fe.is_some() { "inconsistent".into() } else { "ok".into() }
+                    if e != fe.is_some() {
+                        "inconsistent".into()
+                    } else if any {
+                        "ok".into()
+                    } else if e {
+                        "e1".into()
+                    } else {
+                        "e0".into()
+                    }
                 })
             }))
         }
@@ -531,9 +544,7 @@ pub fn index_file(entries: &[(&str, u8, u64)], index2: bool) -> B {
     let data_off = files_off + files_size.max(16);
     let folder_off = data_off + 256;
     b.u32(1024);
-    // the reader divides the size by 16 for both kinds (C01's D2): give index2 twice the size so that
-    // every record is read
-    segment(&mut b, 1, files_off, if index2 { files_size * 2 } else { files_size });
+    segment(&mut b, 1, files_off, files_size);
     b.zeros(4);
     segment(&mut b, 1, data_off, 256);
     segment(&mut b, 0, 0, 0);
